@@ -59,6 +59,8 @@ def run(C, R):
         E = C.engine(cfg)
         CG = C.cg(cfg)
         R.configs.append(cfg)
+        from common import futures_start_initial as _fsi
+        R.floor('C03.R0 future-construction-paths[%s]' % cfg, _fsi(C, R, cfg, ['sync::mutex::MutexState'], 'C03.R0'), 1)
         from common import wrapper_discipline
         R.floor('C03.W wrapper-paths[%s]' % cfg, wrapper_discipline(C, R, cfg, ['sync::mutex::MutexState'], 'C03.W'), 2)
         n_r1 = n_r2 = 0
